@@ -142,7 +142,7 @@ def gen_history(rnd: random.Random, nsteps: int, profile: str = 'mixed', big: bo
         'norepack': dict(add=3, adds=1, topack=5, topack_stream=1, pack=4, clean=2, imp=2, reopen=2, newhandle=2, loosen=1),
         'dedup': dict(add=4, adds=1, topack=6, pack=2, clean=1, reopen=1, damage_loose=2),
         'delete': dict(add=3, topack=3, pack=2, clean=1, delete=3, repack=2, plant_dup=1),
-        'modes': dict(add=3, topack=2, pack=4, repack=5, clean=1),
+        'modes': dict(add=3, topack=2, pack=4, repack=5, clean=1, imp=2, src_add=2),
         'import': dict(add=1, topack=1, pack=1, imp=6, src_add=3, src_pack=1, reopen=1),
     }[profile]
     kinds = [k for k, w in weights.items() for _ in range(w)]
@@ -671,6 +671,14 @@ class Runner:
             for k, b in self.srcmodel.items():
                 if self.src.get_object_content(k) != b:
                     raise Fail({'C14'}, 'import modified the source container')
+            # the compress option of import_objects is honoured for EVERY transferred object, whichever way it took (memory cache or, for
+            # objects above the budget, stream to stream): every newly indexed entry is stored compressed iff compress was asked for
+            if before is not None:
+                old_ids = {tuple(r) for r in before['rows']}
+                wrong = [r for r in raw['rows'] if tuple(r) not in old_ids and bool(r[5]) != bool(op['compress'])]
+                if wrong:
+                    raise Fail({'C10', 'C14'}, f'import with compress={op["compress"]} (target_memory_bytes={op["tmb"]}) stored {len(wrong)} of the new entries '
+                                               f'{"un" if op["compress"] else ""}compressed (e.g. {wrong[0][1][:8]}, size {wrong[0][6]})')
             # objects the destination already holds are not written again (same hash: filtered out beforehand; different hash: no_holes):
             # every pack grew by exactly the bytes of the newly indexed entries
             if before is not None:
